@@ -220,24 +220,32 @@ func runC04(c *Ctx) {
 	}
 
 	// ---- R04.2
-	if c.needWS("R04.2", "sendReq", w.SendReq) {
+	{
 		n := 0
-		for _, s := range p.callers[w.SendReq] {
-			n++
-			construct := fmt.Sprintf("%s: request handed to the writer", fname(s.Parent()))
-			arg := s.Common().Args[len(s.Common().Args)-1]
-			switch {
-			case c.fromQueue(arg, r.FCreqReq):
-				// written once per accepted request: the write cannot reach itself without
-				// going round the connection loop
-				s := s
-				again := reachFromUp(s, func(x ssa.Instruction) bool { return x == ssa.Instruction(s) }, func(x ssa.Instruction) bool { return x == ssa.Instruction(w.LoopSelect) })
-				c.check(again == nil, "R04.2", construct, c.ipos(s), "the request just received, written once", "the accepted request is written inside a loop: it can be sent more than once")
-			case c.isBuiltinNotification(arg):
-				c.ok("R04.2", construct, c.ipos(s), "locally built id-less built-in notification")
-			default:
-				c.bad("R04.2", construct, c.ipos(s), "the request writer is given something other than the request just accepted or an id-less built-in notification (a stored request would be re-sent)")
-			}
+		for _, fn := range p.Funcs {
+			allInstrsRaw(fn, func(in ssa.Instruction) {
+				payload, ok := c.requestWritePayload(in)
+				if !ok {
+					return
+				}
+				for _, sv := range c.liftValue(in, payload, 0) {
+					n++
+					s := sv.At
+					arg := sv.Val
+					construct := fmt.Sprintf("%s: request handed to the writer", fname(s.Parent()))
+					switch {
+					case c.fromQueue(arg, r.FCreqReq):
+						// written once per accepted request: the write cannot reach itself without
+						// going round the connection loop
+						again := reachFromUp(s, func(x ssa.Instruction) bool { return x == s }, func(x ssa.Instruction) bool { return x == ssa.Instruction(w.LoopSelect) })
+						c.check(again == nil, "R04.2", construct, c.ipos(s), "the request just received, written once", "the accepted request is written inside a loop: it can be sent more than once")
+					case c.isBuiltinNotification(arg):
+						c.ok("R04.2", construct, c.ipos(s), "locally built id-less built-in notification")
+					default:
+						c.bad("R04.2", construct, c.ipos(s), "the request writer is given something other than the request just accepted or an id-less built-in notification (a stored request would be re-sent)")
+					}
+				}
+			})
 		}
 		if n == 0 {
 			c.und("R04.2", "request writer call sites", "-", "none found")
@@ -246,10 +254,6 @@ func runC04(c *Ctx) {
 
 	// ---- R04.3
 	{
-		writers := map[*ssa.Function]bool{}
-		if w.SendReq != nil {
-			writers[w.SendReq] = true
-		}
 		roots := []*ssa.Function{w.Failer, w.SinkCloser, r.FnRedial}
 		for _, root := range roots {
 			if root == nil {
@@ -266,16 +270,19 @@ func runC04(c *Ctx) {
 				seen[f] = true
 				for _, g := range withAnon(f) {
 					allInstrs(g, func(in ssa.Instruction) {
+						if hit != nil {
+							return
+						}
+						if c.isRequestWrite(in) {
+							hit = in
+							return
+						}
 						ci, ok := in.(ssa.CallInstruction)
-						if !ok || hit != nil {
+						if !ok {
 							return
 						}
 						cal := p.unbound(staticCallee(ci))
 						if cal == nil {
-							return
-						}
-						if writers[cal] {
-							hit = in
 							return
 						}
 						// sends on the request queue also re-queue
